@@ -298,6 +298,73 @@ func wideLiterals() *core.Family {
 	}
 }
 
+// arithmetic shapes: every tree with 2..3 operator nodes over + - * and unary minus, over
+// constant and request-dependent leaves at the int64 limits: re-associating, distributing
+// or cancelling constants at compile time changes which sub-result overflows.
+func arithShapes(maxOps int) *core.Family {
+	type shape struct {
+		build func(l []*Expr) *Expr
+		slots int
+		name  string
+	}
+	bins := []struct {
+		op   Op
+		name string
+	}{{OAdd, "+"}, {OSub, "-"}, {OMul, "*"}}
+	byN := make([][]shape, maxOps+1)
+	byN[0] = []shape{{func(l []*Expr) *Expr { return l[0] }, 1, "x"}}
+	for n := 1; n <= maxOps; n++ {
+		for _, c := range byN[n-1] {
+			c := c
+			byN[n] = append(byN[n], shape{func(l []*Expr) *Expr { return Un(ONeg, c.build(l)) }, c.slots, "neg(" + c.name + ")"})
+		}
+		for _, b := range bins {
+			b := b
+			for k := 0; k <= n-1; k++ {
+				for _, l := range byN[k] {
+					for _, r := range byN[n-1-k] {
+						l, r := l, r
+						byN[n] = append(byN[n], shape{func(x []*Expr) *Expr { return Bin(b.op, l.build(x[:l.slots]), r.build(x[l.slots:])) }, l.slots + r.slots, "(" + l.name + b.name + r.name + ")"})
+					}
+				}
+			}
+		}
+	}
+	var shapes []shape
+	for n := 2; n <= maxOps; n++ {
+		shapes = append(shapes, byN[n]...)
+	}
+	lv := []*Expr{L(Long(0)), L(Long(1)), L(Long(-1)), L(Long(2)), L(Long(gen.MaxI)), L(Long(gen.MinI)), Access(Var("context"), "a"), Access(Var("context"), "big"), Access(Var("context"), "small")}
+	nl := int64(len(lv))
+	return &core.Family{
+		Name: "arithmetic-shapes",
+		Desc: fmt.Sprintf("every tree with 2..%d operator nodes over {+, -, *, unary -} (%d shapes) x all leaf tuples over the constants {0, 1, -1, 2, max, min} and the request-dependent context.a (1), context.big (max), context.small (min), compared with a constant inside `==`: folded vs unfolded in every environment", maxOps, len(shapes)),
+		N:    int64(len(shapes)),
+		Run: func(t *core.T, i int64) {
+			sh := shapes[i]
+			total := pow(int(nl), sh.slots)
+			ls := make([]*Expr, sh.slots)
+			nontriv := false
+			for r := int64(0); r < total; r++ {
+				x := r
+				for j := sh.slots - 1; j >= 0; j-- {
+					ls[j] = lv[x%nl]
+					x /= nl
+				}
+				e := Bin(OEq, sh.build(ls), L(Long(gen.MaxI)))
+				pl := placements[0]
+				if checkPolicy(t, "arith:"+sh.name, func() string { return e.String() }, func() *xast.Policy { return pl.mk(e.ToAST()) }, true) {
+					nontriv = true
+				}
+			}
+			if nontriv {
+				t.Nontrivial()
+			}
+			t.Sample(sh.name)
+		},
+	}
+}
+
 func pow(b, e int) int64 {
 	r := int64(1)
 	for i := 0; i < e; i++ {
@@ -459,6 +526,11 @@ func Check() *core.Check {
 				fams = append(fams, depth1("depth1-if", gen.Ternary, full, 3), depth2(small))
 			} else {
 				fams = append(fams, depth1("depth1-if", gen.Ternary, small, 3), depth2(small[:5]))
+			}
+			if tier == "thorough" {
+				fams = append(fams, arithShapes(3))
+			} else {
+				fams = append(fams, arithShapes(2))
 			}
 			return append(fams, shortCircuit(), condLists(), wideLiterals())
 		},
